@@ -1,5 +1,5 @@
 (* C11: lemmas with multi-step proofs that Properties_cal.v bundles into its theorems. *)
-From Tetl Require Import Lib.Base C11.Model C11.Spec C11.ModelCal C11.SpecCal C11.ProofsCal C11.ProofsCal2 C11.ProofsCal3 C11.ProofsCal4 C11.ProofsCal5.
+From Tetl Require Import Lib.Base C11.Model C11.Spec C11.ModelCal C11.SpecCal C11.ProofsCal C11.ProofsCal2 C11.ProofsCal3 C11.ProofsCal4 C11.ProofsCal5 C11.ProofsCal6.
 Local Open Scope Z_scope.
 
 Lemma C11_year_compound_l : forall y dy,
@@ -36,4 +36,49 @@ Lemma C11_weekday_diff_inverts_l : forall a b, 0 <= a <= 6 -> 0 <= b <= 6 ->
 Proof.
   intros a b Ha Hb. destruct (weekday_diff_inverts a b Ha Hb) as [H1 H2].
   split; [exact H1|]. split; [exact H2|]. intros dd. apply weekday_plus_minus. exact Ha.
+Qed.
+
+Lemma C11_kernels_total_l :
+  (forall y m d, -32768 <= y <= 32767 -> 0 <= m <= 255 -> 0 <= d <= 255 ->
+    exists z, days_from_civil_m y m d = Some z /\ ymd_to_days_m y m d = Ok z)
+  /\
+  (forall z, -2147483648 <= z <= 2147483647 ->
+    (z <= 2146764179 -> exists y m d, civil_from_days_m z = Some (y, m, d)
+                          /\ -32768 <= y <= 32767 /\ 1 <= m <= 12 /\ 1 <= d <= 31)
+    /\ (2146764179 < z -> civil_from_days_m z = None)).
+Proof.
+  split; [|exact civil_total].
+  intros y m d Hy Hm Hd. eexists. unfold ymd_to_days_m. rewrite (days_total y m d Hy Hm Hd). split; reflexivity.
+Qed.
+
+Lemma C11_equality_l : forall (a b : Z * Z * Z * Z) (c d : Z * Z * Z) (e f : Z * Z),
+  (eq4_m a b = true <-> a = b) /\ (eq3_m c d = true <-> c = d) /\ (eq2_m e f = true <-> e = f).
+Proof. intros. split; [apply eq4_ok|split; [apply eq3_ok|apply eq2_ok]]. Qed.
+
+Lemma C11_day_compound_l : forall d dd, 0 <= d <= 255 ->
+  day_add_assign_m d dd = (d + dd) mod 256 /\ day_sub_assign_m d dd = (d - dd) mod 256
+  /\ day_ok_m d = day_ok_spec d.
+Proof.
+  intros d dd Hd. split; [apply day_add_assign_ok; exact Hd|].
+  split; [apply day_sub_assign_ok; exact Hd|apply day_ok_spec_ok; exact Hd].
+Qed.
+
+Lemma C11_partial_ok_l : forall y m d w idx,
+  -32768 <= y <= 32767 -> 0 <= d <= 255 -> 0 <= w <= 255 ->
+  md_ok_m m d = md_exists m d /\
+  mdl_ok_m m = month_ok_spec m /\
+  wdi_ok_m w idx = wdi_ok_spec w idx /\
+  wdl_ok_m w = weekday_ok_spec w /\
+  mwd_ok_m m w idx = month_ok_spec m && wdi_ok_spec w idx /\
+  mwdl_ok_m m w = month_ok_spec m && weekday_ok_spec w /\
+  ym_ok_m y m = year_ok_spec y && month_ok_spec m /\
+  ymdl_ok_m y m = year_ok_spec y && month_ok_spec m /\
+  ymwdl_ok_m y m w = year_ok_spec y && month_ok_spec m && weekday_ok_spec w.
+Proof.
+  intros y m d w idx Hy Hd Hw.
+  split; [apply md_ok_spec_ok; exact Hd|]. split; [apply month_ok_spec_ok|].
+  split; [apply wdi_ok_spec_ok; exact Hw|]. split; [apply weekday_ok_spec_ok; exact Hw|].
+  split; [apply mwd_ok_spec_ok; exact Hw|]. split; [apply mwdl_ok_spec_ok; exact Hw|].
+  split; [apply ym_ok_spec_ok; exact Hy|]. split; [apply ymdl_ok_spec_ok; exact Hy|].
+  apply ymwdl_ok_spec_ok; assumption.
 Qed.
